@@ -57,6 +57,33 @@ theorem C14_never_marked (marks' : Marks) (rn rm : Bytes → Bool) (low : Nat) (
   ⟨fun e he => ((evict_unmarked marks' rn rm low order t).1 e he).1,
    fun e he => ((evict_unmarked marks' rn rm low order t).2 e he).1⟩
 
+/-- Marks that arrive WHILE the loop runs (this process stores or retrieves during the pass): pair every candidate
+    with the marks in force at its own test.  An entry that is marked when its turn comes — whenever during the loop
+    that mark arrived, for every order — is neither evicted nor half-removed.  (This is what a loop that consults a
+    snapshot of the marks taken before it started would lose.) -/
+theorem C14_marked_during_loop_protected (rn rm : Bytes → Bool) (low : Nat) (order : List (Entry × Marks)) (t : Nat)
+    (e : Entry) (h : ∀ m, (e, m) ∈ order → m e.path ≠ none) :
+    e ∉ (evictP rn rm low order t).evicted ∧ e ∉ (evictP rn rm low order t).half := by
+  constructor
+  · intro he
+    obtain ⟨m, hm, hn⟩ := evictP_unmarked rn rm low order t e (Or.inl he)
+    exact h m hm hn
+  · intro he
+    obtain ⟨m, hm, hn⟩ := evictP_unmarked rn rm low order t e (Or.inr he)
+    exact h m hm hn
+
+/-- `evictP` is the loop of the other theorems when nothing changes meanwhile. -/
+theorem C14_evictP_is_evict (marks' : Marks) (rn rm : Bytes → Bool) (low : Nat) (order : List Entry) (t : Nat) :
+    evictP rn rm low (order.map fun e => (e, marks')) t = evict marks' rn rm low order t :=
+  evictP_const marks' rn rm low order t
+
+-- non-vacuity: three candidates in the order 1, 2, 3; the mark on [3] arrives while [1] is being evicted, so [2] and [3]
+-- are tested with it in force: [1] and [2] go, [3] stays
+example : (evictP (fun _ => true) (fun _ => true) 0
+    [(⟨[1], 10, 0⟩, fun _ => none), (⟨[2], 10, 0⟩, fun p => if p = [3] then some 0 else none),
+     (⟨[3], 10, 0⟩, fun p => if p = [3] then some 0 else none)] 30).evicted = [⟨[1], 10, 0⟩, ⟨[2], 10, 0⟩] := by
+  decide
+
 /-- Only whole entries — when every `RemoveAll` of a renamed entry succeeds (`rm`): what is evicted are candidates
     (recognised, unmarked entries found by the walk), each taken as a whole (`os.Rename(entry.Path, …)` +
     `RemoveAll`); evicted and kept together are exactly the candidates; nothing is left half-removed.  (Renames may
